@@ -315,6 +315,13 @@ for _p in ('C16', 'C12'):
 for _p in ('C08', 'C11'):
     PROPS[_p]['static'] = list(PROPS[_p].get('static', [])) + [('writers-emit-only-the-pretty-printed-dictionary', ST.writer_tail_idiom('roberta_generator', ['write_robot_A', 'write_robot_B', 'write_robot_C']))]
 
+# ---- the one assumed library fact behind Solver.__init__'s verified contract, listed wherever that function is in the cone
+A_LOG10 = ("A-LOG10: math.log(x, 10) for x = the double 10**(-6) returns a float in [-6, -5) (CPython: -5.999999999999999); this replaces the formerly ASSUMED contract of "
+           "Solver.__init__, which is now verified from its body; the static obligation solver-constants re-evaluates the real expression on every run")
+for _p, _d in PROPS.items():
+    if 'tad.Solver.__init__' in _d.get('functions', []) and A_LOG10 not in _d.get('assumptions', []):
+        _d['assumptions'] = list(_d.get('assumptions', [])) + [A_LOG10]
+
 PROPS['C16']['level_text'] += (" conditionalrewards.main is verified against summaries of the three functions it calls: the batch runs on what was read from the file named by -f, and"
                                " that result is saved under the same name exactly when -s is given (nothing is saved otherwise, nor when the input is refused).")
 PROPS['C08']['level_text'] += " write_robots is verified to hand each writer the caller's board and exactly the probabilities of its game, in parameter order."
